@@ -25,7 +25,7 @@ RULE = ("script = 1-5 statements drawn from the calibrated single-statement pool
         "distinct = distinct script text.")
 ASSUMPTIONS = [
     "pool statements are corpus texts without ';' or comments of their own that analyse without error when alone (calibrated on the tree under test at run time)",
-    "in-statement comments are inserted only at whitespace that lies outside string literals and quoted identifiers (regex tokeniser) and never inside a multi-word operator that the dialect lexes as one token",
+    "in-statement comments are inserted only at whitespace that lies outside string literals and quoted identifiers (regex tokeniser; statements containing a backslash get none) and never inside a multi-word operator that the dialect lexes as one token",
     "single-statement holders are obtained by wrapping the public LineageAnalyzer.analyze (statement tap)",
 ]
 
@@ -106,6 +106,8 @@ def pools():
 
 def insert_inner(stmt, where, what):
     """insert a comment at the `where`-th whitespace token outside literals"""
+    if "\\" in stmt:
+        return stmt, False  # backslash escapes inside literals are dialect-specific: the regex tokeniser cannot tell where such a literal ends
     toks = WS_TOK.findall(stmt)
     ws = [i for i, t in enumerate(toks) if t.isspace() and 0 < i < len(toks) - 1]
     if not ws:
